@@ -92,8 +92,38 @@ def load_module(name, path=None):
     return _cache[key]
 
 
-def find_function(target):
-    """'rig/geometry.py::Class.method' (or nested 'f.g') -> (ModuleInfo, node, class node or None)"""
+def _header(stmt):
+    """first line of the canonical text of a statement (for a compound statement: its header)"""
+    return ast.unparse(stmt).split("\n")[0].strip()
+
+
+def _matches_head(stmt, head):
+    """the statement starts with `head`, or it is a compound statement whose body starts with it (so that an `if` can be
+    anchored by what it guards when its condition is the very thing under contract)"""
+    h = _norm_head(head)
+    if _header(stmt) == h:
+        return True
+    body = getattr(stmt, "body", None)
+    return bool(body) and isinstance(body, list) and _header(body[0]) == h
+
+
+def _norm_head(text):
+    import textwrap
+    try:
+        return ast.unparse(ast.parse(textwrap.dedent(text)).body[0]).split("\n")[0].strip()
+    except SyntaxError:
+        pass
+    try:        # the header of a compound statement alone: give it a body to parse it
+        return ast.unparse(ast.parse(textwrap.dedent(text).rstrip() + "\n    pass").body[0]).split("\n")[0].strip()
+    except SyntaxError:
+        return " ".join(text.split())
+
+
+def find_function(target, head=None):
+    """'rig/geometry.py::Class.method' (or nested 'f.g') -> (ModuleInfo, node, class node or None).
+    `head` (fragments): the text the fragment's first statement must start with; when the statement with the ordinal named in
+    the target does not start with it but exactly one statement of that kind in the function does, that statement is taken
+    (so an unrelated statement added earlier in the function does not move the contract onto the wrong statement)"""
     rel, qual = target.split("::")
     name = rel[:-3].replace("/", ".")
     if rel.startswith("specs/"):
@@ -121,11 +151,11 @@ def find_function(target):
         node = found
         scope_body = found.body
     if fragment is not None:
-        node = extract_fragment(mi, node, fragment)
+        node = extract_fragment(mi, node, fragment, head)
     return mi, node, cls
 
 
-def extract_fragment(mi, fnode, fragment):
+def extract_fragment(mi, fnode, fragment, head=None):
     """'while:0' / 'for:2' -> the n-th loop statement (source order, nested function bodies excluded) of the function, returned
     as a marker object; the contract turns it into a function whose parameters are the fragment's free variables"""
     kind, _, ordn = fragment.partition(":")
@@ -135,6 +165,10 @@ def extract_fragment(mi, fnode, fragment):
         first, _, count = ordn.partition(":")
         stmts = [b for b in fnode.body if not (isinstance(b, ast.Expr) and isinstance(b.value, ast.Constant) and isinstance(b.value.value, str))]
         a, c = int(first), int(count or 1)
+        if head is not None and not (a < len(stmts) and _matches_head(stmts[a], head)):
+            hits = [i for i, b in enumerate(stmts) if _matches_head(b, head)]
+            if len(hits) == 1:
+                a = hits[0]
         if a + c > len(stmts):
             raise KeyError("no statements %d..%d in %s" % (a, a + c - 1, fnode.name))
         frag = ast.FunctionDef(name="%s__seq%d" % (fnode.name, a), args=ast.arguments(posonlyargs=[], args=[], kwonlyargs=[], kw_defaults=[], defaults=[]),
@@ -144,6 +178,7 @@ def extract_fragment(mi, fnode, fragment):
         frag.is_fragment = True
         frag.enclosing = fnode.name
         frag.first_text = ast.unparse(stmts[a])
+        frag.first_stmt = stmts[a]
         return frag
     cls = {"while": ast.While, "for": ast.For, "forbody": ast.For, "if": ast.If}[kind]
     found = []
@@ -156,6 +191,10 @@ def extract_fragment(mi, fnode, fragment):
         todo = kids + todo
     found = sorted([n for n in allnodes if isinstance(n, cls)], key=lambda n: (n.lineno, n.col_offset))
     k = int(ordn or 0)
+    if head is not None and not (k < len(found) and _matches_head(found[k], head)):
+        hits = [i for i, b in enumerate(found) if _matches_head(b, head)]
+        if len(hits) == 1:
+            k = hits[0]
     if k >= len(found):
         raise KeyError("no %s loop number %d in %s" % (kind, k, fnode.name))
     body = [found[k]]
@@ -176,6 +215,8 @@ def extract_fragment(mi, fnode, fragment):
     frag.end_col_offset = found[k].end_col_offset
     frag.is_fragment = True
     frag.enclosing = fnode.name
+    frag.first_text = ast.unparse(found[k])
+    frag.first_stmt = found[k]
     return frag
 
 
